@@ -11,7 +11,7 @@ func init() {
 		ID: "C02",
 		Explanation: "Atomicity analysis (engine E1, rule AT1) over every operation of the eight lock-guarded container types: the critical sections an operation opens on one instance " +
 			"(through all callees, call-string sensitive) must be independent - no later section may run, or not run, depending on a value read in an earlier section (control dependence on the " +
-			"feasible sub-CFG, pruned by callee return summaries), nor use such a value (data dependence through SSA def-use, cells, closures and callee summaries). Together with LK1 (every guarded " +
+			"feasible sub-CFG, pruned by callee return summaries), nor use such a value (data dependence through SSA def-use, cells, closures and callee summaries). AT2: an operation changes its receiver in at most one critical section (two writing sections expose an intermediate state); AT3: no state slot is kept outside the lock behind sync/atomic. Together with LK1 (every guarded " +
 			"access lies inside a section, in the right mode) and LK4 (results are values, not live references) each operation has a single linearization point, so every concurrent execution is " +
 			"equivalent to a sequential run of the same code. Decides atomicity, not whether the sequential behaviour is the intended one (C03-C09).",
 		Assumptions: []string{"go/ssa of x/tools v0.29.0 is faithful to the source", "sync.RWMutex/Mutex contracts", "read-locked sections are pure (LK1 write rule)",
@@ -20,7 +20,7 @@ func init() {
 			"loop-carried dependences between iterations that reuse one acquisition site"},
 		Run: func(p *core.Program, r *core.Report) {
 			res := runLockset(p)
-			emitLockset(res, r, map[string]bool{"AT1": true, "LK1": true, "LK4": true}, containerTypes)
+			emitLockset(res, r, map[string]bool{"AT1": true, "AT2": true, "AT3": true, "LK1": true, "LK4": true}, containerTypes)
 			// region counts per operation (evidence)
 			regions := map[string]int{}
 			multi := []string{}
